@@ -263,7 +263,8 @@ def check(run):
         try:
             from renormalizer.utils.rk import TaylorExpansion
             te = TaylorExpansion(order_)
-            okf = len(te.coeff) == order_ + 1 and all(abs(Fraction(float(te.coeff[k])) - Fraction(1, math.factorial(k))) <= Fraction(1, 2 ** 51 * math.factorial(k))
+            # k! is an exact double up to 22!; beyond that the library's factorial is a floating-point gamma evaluation (a few ulp): 2 ulp / 16 ulp
+            okf = len(te.coeff) == order_ + 1 and all(abs(Fraction(float(te.coeff[k])) - Fraction(1, math.factorial(k))) <= Fraction(1, 2 ** (51 if k <= 22 else 48) * math.factorial(k))
                                                        for k in range(order_ + 1))
             run.oblig(f"link:TaylorExpansion:float:{order_}", fn3, "B(bounded)", "discharged" if okf else "violated", "closed check")
             if not okf:
